@@ -344,8 +344,10 @@ def machine_configs(sizes, caps):
         for cap in caps:
             for dead in [None] + ([chips[-1]] if len(chips) > 1 else []) + \
                     ([chips[0]] if len(chips) > 2 else []):
-                for exc in [None, "less", "more"]:
+                for exc in [None, "less", "more", "dead"]:
                     live = [c for c in chips if c != dead]
+                    if exc == "dead" and not dead:
+                        continue
                     if exc and (len(live) < 2 or (exc == "less" and cap == 0)):
                         continue
                     for resv in [None, "global", "chip", "both"]:
@@ -353,7 +355,11 @@ def machine_configs(sizes, caps):
                             continue
                         cfg = dict(w=w, h=h, cap=cap,
                                    dead=[list(dead)] if dead else [])
-                        if exc:
+                        if exc == "dead":
+                            # the dead chip also carries a resource
+                            # exception (plenty of resources nobody may use)
+                            cfg["exceptions"] = [[list(dead), cap + 2]]
+                        elif exc:
                             cfg["exceptions"] = [[list(live[-1]),
                                                   cap - 1 if exc == "less"
                                                   else cap + 1]]
@@ -538,7 +544,11 @@ def fam_tiny_random(params, tier, acc):
                                 nets=chain_nets(names), placer=placer,
                                 fam="tiny_random", effort=1.0, **cs)
                     acc.nontrivial += 1
-                    run_case(case, acc, tier, 2 if tier == "quick" else 3)
+                    # thorough: three deviations for the uniform placer; an
+                    # annealing run draws too many numbers for that
+                    run_case(case, acc, tier,
+                             3 if (tier != "quick" and placer == "rand")
+                             else 2)
     acc.sample(dict(fam="tiny_random"))
 
 
